@@ -221,6 +221,10 @@ func TestC06(t *testing.T) {
 		// with the context's error, the others are dispatched and must start while slots are free
 		for _, sc := range []*srvScenario{
 			{Concurrency: 4, DeadCtxAt: 1, Ops: []envOp{{Kind: "send", Arg: reqBatch(reqCall(1, "c1", "ok"), reqCall(2, "c2", "ok"), reqCall(3, "c3", "ok"))}, {Kind: "send", Arg: reqCall(4, "c4", "ok")}}},
+			// a notification whose base context ends the moment it is first consulted: once it holds a
+			// slot it runs (or at least gives the slot back); the calls behind it are not starved
+			{Concurrency: 1, LateCtxAt: 1, Ops: []envOp{{Kind: "send", Arg: reqNote("n1", "ok")}, {Kind: "send", Arg: reqCall(2, "c2", "ok")}, {Kind: "send", Arg: reqCall(3, "c3", "ok")}}},
+			{Concurrency: 2, LateCtxAt: 2, Ops: []envOp{{Kind: "send", Arg: reqCall(1, "c1", "ok")}, {Kind: "send", Arg: reqBatch(reqNote("n2", "ok"), reqNote("n3", "ok"))}, {Kind: "send", Arg: reqBatch(reqCall(4, "c4", "ok"), reqCall(5, "c5", "ok"), reqCall(6, "c6", "ok"))}}},
 			{Concurrency: 2, DeadCtxAt: 2, Ops: []envOp{{Kind: "send", Arg: reqBatch(reqCall(1, "Hc1", "ok"), reqCall(2, "c2", "ok"), reqNote("n3", "ok"), reqCall(4, "c4", "err"))}, {Kind: "send", Arg: reqCall(5, "c5", "ok")}}},
 			{Concurrency: 3, DeadCtxAt: 3, Ops: []envOp{{Kind: "send", Arg: reqCall(1, "c1", "ok")}, {Kind: "send", Arg: reqBatch(reqCall(2, "c2", "ok"), reqCall(3, "c3", "ok"), reqCall(4, "c4", "ok"), reqCall(5, "c5", "ok"))}}},
 		} {
